@@ -255,9 +255,13 @@ func runC15(c *Ctx) {
 				mutOK = true
 			}
 		}
-		if hitKnown && hit && mutOK && len(sets) == 0 && len(dels) == 0 && a.refresh {
+		if !(hitKnown && !hit) && mutOK && len(sets) == 0 && len(dels) == 0 && a.refresh {
 			a.refresh = false
-			c.violated("C15.refresh-on-hit", cons, handle.Pos(), "the key is cached and the store was changed successfully, but the cache is neither refreshed nor deleted: it keeps serving the old value", c.witness(t, len(t.Events)-1)...)
+			what := "the key is cached"
+			if !hitKnown {
+				what = "the key may be cached (the path never established a cache miss)"
+			}
+			c.violated("C15.refresh-on-hit", cons, handle.Pos(), what+" and the store was changed successfully, but the cache is neither refreshed nor deleted on this path: it keeps serving the old value", c.witness(t, len(t.Events)-1)...)
 		}
 		// a Set/Delete must not be followed by another successful mutating callback without a new Set
 		for _, si := range append(append([]int{}, sets...), dels...) {
